@@ -38,7 +38,7 @@ def _first_trace_with_obs(path, max_lines=4000):
     return None, None
 
 
-def selftest(sc, seq_file):
+def selftest(sc, seq_file, tier):
     """Binding self-test: corrupt ONE logged field of a recorded trace in five ways; the
     verdict-level specification must reject each at exactly that line (else it is vacuous)."""
     tr, i = _first_trace_with_obs(seq_file)
@@ -62,6 +62,8 @@ def selftest(sc, seq_file):
         "altered": lambda s: s[0].__setitem__("sig", s[0]["sig"] + "x"),
         "foreign": foreign,
     }
+    if tier == "quick":
+        cases = {k: cases[k] for k in ("lost", "duplicated", "reordered")}
     d = sc.sub("selftest")
     files = {}
     for name, fn in cases.items():
@@ -69,16 +71,15 @@ def selftest(sc, seq_file):
         with open(fp, "w") as f:
             f.write("\n".join(variant(fn)) + "\n")
         files[fp] = name
-    val = V.validate_traces(sc, "Routing", "RoutingTraceMC.tla", "RoutingTrace.cfg", list(files))
+    orig = os.path.join(d, "original.ndjson")
+    with open(orig, "w") as f:
+        f.write("\n".join(tr) + "\n")
+    val = V.validate_traces(sc, "Routing", "RoutingTraceMC.tla", "RoutingTrace.cfg", list(files) + [orig])
     rejected = {fp: ln for fp, ln, _ in val["rejections"]}
     for fp, name in files.items():
         if rejected.get(fp) != i + 1:
             raise V.Broken("self-test: a %s delivery in a recorded trace was not rejected at its Obs line (got %r)" % (name, rejected.get(fp)))
-    # and the unmodified trace is accepted
-    fp = os.path.join(d, "original.ndjson")
-    with open(fp, "w") as f:
-        f.write("\n".join(tr) + "\n")
-    if not V.validate_traces(sc, "Routing", "RoutingTraceMC.tla", "RoutingTrace.cfg", [fp])["accepted"]:
+    if orig in rejected:
         raise V.Broken("self-test: the unmodified trace is rejected")
     return sorted(cases)
 
@@ -106,14 +107,20 @@ def run(sc, tier, seed):
     # impl level: the histories with races always, the exhaustive singles/pairs in the thorough tier
     impl_files = [f for f in files if f.endswith("mix.ndjson")] + (seq if tier == "thorough" else [])
     # verdict level: every recorded line against what the property promises
-    val = V.validate_traces(sc, "Routing", "RoutingTraceMC.tla", "RoutingTrace.cfg", files, timeout=2400)
+    # (one concatenated file: fewer, fuller JVMs)
+    allf = os.path.join(out, "all.ndjson")
+    with open(allf, "w") as o:
+        for f in files:
+            with open(f) as i:
+                o.write(i.read())
+    val = V.validate_traces(sc, "Routing", "RoutingTraceMC.tla", "RoutingTrace.cfg", [allf], timeout=2400)
     R.states += val["states"]
     R.handle_validation(val)
     # impl level (drift only, never a verdict): the sequential traces against the code-shaped model
     drift, corrupted = [], []
     if val["accepted"]:
-        corrupted = selftest(sc, seq[0])
-        val2 = V.validate_traces(sc, "Routing", "RoutingTraceMC.tla", "RoutingImplTrace.cfg", impl_files, timeout=2400)
+        corrupted = selftest(sc, seq[0], tier)
+        val2 = V.validate_traces(sc, "Routing", "RoutingTraceMC.tla", "RoutingImplTrace.cfg", impl_files, timeout=2400, parallel=8)
         R.states += val2["states"]
         for fp, line_no, res in val2["rejections"]:
             seg, _ = V.segment_of(fp, line_no)
